@@ -171,6 +171,75 @@ fn same_ok(a: &Obs, b: &Obs, comm: &[bool; 64]) -> bool {
     a.vars == b.vars && ac_norm(&a.val, comm) == ac_norm(&b.val, comm)
 }
 
+/// Known finding K2: "prefix style" strings. exmex deliberately accepts a binary operator
+/// in operand position followed by its operands (`/ 1 2 * 3`, pinned by the baseline test
+/// `test_binary_function_style`) by simply zipping the operator list with the operand list. The
+/// flat form zips over the whole text, the deep form per parenthesis level, so the two disagree
+/// when such an operator meets a parenthesised group (`==(w==2)&&3.5y`). The class is recognised
+/// on the token level by the reference lexer: a binary-only operator where an operand is
+/// expected, unless it is call notation `op( .. , .. )`.
+pub fn in_prefix_style_class(text: &str, table: &Table) -> bool {
+    use crate::model::{lex, Lits, MTok};
+    let Ok(toks) = lex(text, table, Lits::Sym) else { return false };
+    for (i, t) in toks.iter().enumerate() {
+        let MTok::Op(o) = t else { continue };
+        let spec = &table[*o];
+        if spec.bin.is_none() || spec.un.is_some() {
+            continue;
+        }
+        let operand_expected = match i.checked_sub(1).map(|j| &toks[j]) {
+            None => true,
+            Some(MTok::Open) | Some(MTok::Comma) => true,
+            Some(MTok::Op(p)) => table[*p].constant.is_none(),
+            _ => false,
+        };
+        if !operand_expected {
+            continue;
+        }
+        // call notation: directly followed by a parenthesis group with a top-level comma
+        let mut is_call = false;
+        if let Some(MTok::Open) = toks.get(i + 1) {
+            let mut d = 0;
+            for t2 in &toks[i + 1..] {
+                match t2 {
+                    MTok::Open => d += 1,
+                    MTok::Close => {
+                        d -= 1;
+                        if d == 0 {
+                            break;
+                        }
+                    }
+                    MTok::Comma if d == 1 => is_call = true,
+                    _ => {}
+                }
+            }
+        }
+        if !is_call {
+            return true;
+        }
+    }
+    false
+}
+
+/// the listed witnesses of K2 (text, operator table)
+const K2_WITNESSES: &[(&str, &str)] = &[
+    ("==(w_1==2)&&3.5y", "-:b0p1 +:b1p0c:u1 ==:b2p2 &&:b3p1 ||:b4p0c cos:u5 lg10:u6 log2:u7 ln:u8 PI:=90.5 E:=91.5"),
+    ("mx(dot3.5y)=={z}1", "/:b0p99 dot:b1p99c mx:b2p0c ==:b3p98 andalso:b4p99c lg10:u5 sqrt:u6 lg2:u7 PI:=90.5"),
+    ("mx(2mxλlg10)lg2x", "lg:b0p3 mx:b1p1 log:u2 lg10:u3 lg2:u4 cos:u5 λ:u6"),
+];
+
+fn known_catalogue(st: &mut Stats) {
+    for (text, tdesc) in K2_WITNESSES {
+        let Some(table) = crate::sym::parse_table_desc(tdesc) else { continue };
+        install(&table);
+        let comm = comm_slots(&table);
+        st.bump("known_finding_witnesses_run");
+        if let Some(what) = soup_problem(text, &comm, None) {
+            st.violation(format!("K2|{text}"), text.len(), json!({"kind": "known-finding-witness", "text": text, "table": tdesc, "problem": what}));
+        }
+    }
+}
+
 /// soup: whenever both parsers accept, every form must agree with the flat one
 fn soup_problem(text: &str, comm: &[bool; 64], st: Option<&mut Stats>) -> Option<String> {
     let f = run_path("flat", text);
@@ -212,6 +281,9 @@ pub fn run(ctx: &Ctx) -> i32 {
     let n_tree = ctx.n(120_000, 6_000_000);
     let n_soup = ctx.n(240_000, 10_000_000);
     let stats = run_workers(ctx, 3, |w, rng, st| {
+        if w == 0 {
+            known_catalogue(st);
+        }
         let quota = share(n_tree, w, ctx.threads);
         let mut table = gen_table(rng, &TableCfg::default());
         for i in 0..quota {
@@ -299,9 +371,13 @@ pub fn run(ctx: &Ctx) -> i32 {
             let text = toks.concat();
             st.bump("cases");
             st.bump("soup_cases");
+            if in_prefix_style_class(&text, &table) {
+                st.bump("soup_strings_in_known_finding_class_K2_not_judged");
+                continue;
+            }
             if let Some(what) = soup_problem(&text, &comm, Some(st)) {
                 if st.violations.len() < 6 {
-                    let mut pred = |t: &str| soup_problem(t, &comm, None).is_some();
+                    let mut pred = |t: &str| !in_prefix_style_class(t, &table) && soup_problem(t, &comm, None).is_some();
                     let small = shrink_tokens(&toks, &mut pred, 300).concat();
                     let what = soup_problem(&small, &comm, None).unwrap_or(what);
                     st.violation(
@@ -320,6 +396,7 @@ pub fn run(ctx: &Ctx) -> i32 {
         "(1) random trees x random tables rendered in random spellings: ten fixed parse/convert paths, then a random conversion history (0..6 to_deepex/from_deepex steps from the flat or the deep parse) observed after every step: variable list and term (mod AC) must equal the reference tree's; (2) operator listings of flat / deep / uncompiled / converted forms against the tree (sorted, duplicate-free, nothing absent from the text, every operator over a variable-dependent operand present, flat == deep when no constant sub-expression with an operator exists); (3) token soup and near-well-formed soup: whenever FlatEx::parse and DeepEx::parse both accept, all forms and conversions must agree (different acceptance is counted, not judged). distinct_nontrivial = distinct tree shape/priority/flag classes + distinct accepted-soup classes.",
     )
     .assume("the property does not demand equal acceptance of sloppy strings by the two parsers")
+    .assume("soup strings in the known-finding class K2 (prefix style: a binary-only operator where an operand is expected, not call notation) are counted and not judged; its listed witnesses are run as a fixed catalogue")
     .require("conversion_steps", 1000)
     .require("listing_cases", 1000)
     .require("soup_both_accept", 1000);
